@@ -144,6 +144,7 @@ typedef struct {
     buf_t   trace;             /* textual event trace (observable) */
     uint32_t actions;
     sslSessionId_t *sid;       /* client session id store (resumption) */
+    int     no_autocollect;    /* world_feed/app_send/close do not drain output (driver collects itself) */
 } world_t;
 
 extern int world_cert_cb_mode;           /* 0 strict (return alert), 1 permissive (return 0) */
